@@ -59,6 +59,7 @@ ALPHA = {
     "u1": [0, 1, 200, 255],
     "td": [None, "1", "-2"],
 }
+EXTREME_F8 = [None, "1.7e308", "1.6e308", "-1.7e308", "5e-324", "1.5e-323"]
 KINDS_T = KINDS + ["u1", "td"]  # thorough only
 REPS = [["max", "f8"], ["mean", "f8"], ["first", "f8"], ["mode", "f8"], ["count_unique", "f8"], ["quantile", "f8"], ["sum", "f8"]]
 EXTRA = [["first", "i8"], ["max", "D"], ["mode", "b1"]]
@@ -313,6 +314,14 @@ def worker():
                 for toks in itertools.product(alpha_n, repeat=n):
                     for groups in itertools.product([1, 2], repeat=n):
                         frames.append((list(toks), list(groups)))
+            if kind == "f8":
+                # magnitudes at both ends of the float64 range (sums of two overflow, halves of the smallest underflow)
+                for n in (1, 2, 3):
+                    for toks in itertools.product(EXTREME_F8, repeat=n):
+                        if n == 3 and len(set(toks)) < 2:
+                            continue
+                        for groups in ([[1] * n] if n == 3 else itertools.product([1, 2], repeat=n)):
+                            frames.append((list(toks), list(groups)))
             # size ladder: periodic long groups (sorting inside a kernel is stable only below 16 elements)
             a = ALPHA[kind][:4]
             for length in (17, 40, 130):
